@@ -2164,3 +2164,35 @@ Proof.
       destruct fe; cbn in Ht; try discriminate Ht; inversion Ht; subst t; cbn [tail_rule];
         cbn in Hmf; inversion Hmf; subst k; rewrite ?K7, ?K8, ?K9 in Hk; inversion Hk; subst e; left; reflexivity.
 Qed.
+
+(* T1 as a corollary *)
+Theorem no_error_unless_allowed role grease wt credit dflt h :
+  whist_ok h ->
+  let d := run_history h (new_drv role grease wt credit dflt) in
+  d_res d <> RIndet ->
+  allowed_errors_with settings_verdict (srole_of role) (sdescs (sent_of h)) = [] ->
+  forall e, d_res d <> RErr e.
+Proof.
+  intros Hh d Hni Hnone e He.
+  pose proof (errors_allowed role grease wt credit dflt h e Hh Hni He) as Hin. fold d in Hin.
+  rewrite Hnone in Hin. destruct Hin.
+Qed.
+
+(* the stream-type facts, unfolded *)
+Theorem stream_types_statement role grease wt credit dflt h :
+  whist_ok h ->
+  let d := run_history h (new_drv role grease wt credit dflt) in
+  let x := sent_of h in
+  let c := conn_of d in
+  let w := world_of d in
+  (forall id code, In (id, code) (l_stops (w_log w)) ->
+     code = E_STREAM_CREATION /\ In id (sn_ann x) /\ exists ty, hdr_type x id = Some ty /\ unknown_type ty) /\
+  NoDup (map fst (l_stops (w_log w))) /\
+  (c_cause c = Some CzTwoControl -> two_of x ST_CONTROL) /\
+  (c_cause c = Some CzTwoEncoder -> two_of x ST_QPACK_ENCODER) /\
+  (c_cause c = Some CzTwoDecoder -> two_of x ST_QPACK_DECODER) /\
+  c_cause c <> Some CzHeaderInternal.
+Proof.
+  intros Hh d x c w.
+  destruct (stream_types_bytes role grease wt credit dflt h Hh) as [F1 F2 F3 F4 F5 F6]. auto 10.
+Qed.
